@@ -132,10 +132,16 @@ func (e *Engine) VerifyUnit(u *Unit) (res *UnitResult) {
 		fx.params[p.Name()] = specVal{v, p.Type()}
 		fx.assumeType(st, v, p.Type())
 	}
+	var fvPtrs []*Term
 	for _, fv := range fn.FreeVars {
 		v := c.Const("fv_"+fv.Name(), SInt)
 		fx.freeCells[fv] = v
 		c.Assume(And(Lt(v, alloc0), Gt(v, IntLit(0))))
+		// captured variables are distinct cells
+		for _, o := range fvPtrs {
+			c.Assume(Neq(v, o))
+		}
+		fvPtrs = append(fvPtrs, v)
 	}
 	fx.ghosts = map[string]specVal{}
 	for _, g := range fx.beh.Ghosts {
@@ -275,12 +281,25 @@ func (fx *FnExec) pkgPath() string {
 	return ""
 }
 
+func (fx *FnExec) ownFvs() map[string]fvBinding {
+	if len(fx.fn.FreeVars) == 0 {
+		return nil
+	}
+	m := map[string]fvBinding{}
+	for _, fv := range fx.fn.FreeVars {
+		if p, ok := fx.freeCells[fv]; ok {
+			m[fv.Name()] = fvBinding{p, fv.Type().(*types.Pointer).Elem()}
+		}
+	}
+	return m
+}
+
 func (fx *FnExec) specEnvEntry() *SpecEnv {
-	return &SpecEnv{fx: fx, pkg: fx.pkgPath(), vars: fx.baseVars(), st: fx.entry, old: fx.entry, where: fx.fn.Name() + " (entry)"}
+	return &SpecEnv{fx: fx, pkg: fx.pkgPath(), vars: fx.baseVars(), st: fx.entry, old: fx.entry, where: fx.fn.Name() + " (entry)", fvs: fx.ownFvs()}
 }
 
 func (fx *FnExec) specEnvReturn(r retInfo) *SpecEnv {
-	env := &SpecEnv{fx: fx, pkg: fx.pkgPath(), vars: fx.baseVars(), st: r.st, old: fx.entry, where: fx.fn.Name() + " (ensures)"}
+	env := &SpecEnv{fx: fx, pkg: fx.pkgPath(), vars: fx.baseVars(), st: r.st, old: fx.entry, where: fx.fn.Name() + " (ensures)", fvs: fx.ownFvs()}
 	names := resultNames(fx.fn.Signature)
 	for i, v := range r.vals {
 		env.vars[names[i]] = specVal{v, fx.fn.Signature.Results().At(i).Type()}
@@ -345,7 +364,7 @@ func (fx *FnExec) specEnvAt(st *State, head *ssa.BasicBlock) *SpecEnv {
 		fx.fail("loop count mismatch: %d for/range statements, %d SSA loops", len(lp), len(fx.loops))
 	}
 	pos := lp[li.ordinal]
-	env := &SpecEnv{fx: fx, pkg: fx.pkgPath(), vars: map[string]specVal{}, st: st, old: fx.entry, where: fmt.Sprintf("%s (loop %d)", fx.fn.Name(), li.ordinal)}
+	env := &SpecEnv{fx: fx, pkg: fx.pkgPath(), vars: map[string]specVal{}, st: st, old: fx.entry, where: fmt.Sprintf("%s (loop %d)", fx.fn.Name(), li.ordinal), fvs: fx.ownFvs()}
 	for k, v := range fx.ghosts {
 		env.vars[k] = v
 	}
